@@ -31,7 +31,7 @@ PROBES = {
     "hist": ["union_switch", "limited_full_append", "limited_full_add", "long_extend", "slice_with_step",
              "extend_bad_elem_after_good_prefix", "extend_composite_from_live_elements",
              "copy_src_present_optional_composite", "copy_src_limited_composite_array", "unequal_lengths_on_shared_sizer",
-             "count_exceeds_sizer_type"],
+             "count_exceeds_sizer_type", "add_with_array_keyword"],
     "order": ["definition_with_3plus_dependencies", "patched_dependency_edge"],
     "fs": ["include_diamond", "include_through_second_spelling", "decoy_later_in_search_order", "compiled_from_other_cwd",
            "include_with_subdirectory_found_through_-I", "one_invocation_per_file", "empty_header_included_twice",
